@@ -1260,7 +1260,7 @@ class FileSet:
                 # NB: using posixpath rather than os.path because
                 # AbstractFileSystem objects always work with / not \
                 search_dirs = [
-                    (posixpath.join(old_dir, subdir_chunk), attr)
+                    (posixpath.join(old_dir, subdir_chunk, ""), attr)
                     for old_dir, attr in search_dirs
                 ]
                 continue
